@@ -35,7 +35,7 @@ def budget_s(tier):
 def case(draw, tier):
     big = tier == "thorough"
     horizon = draw(st.integers(4, 30 if big else 14))
-    shape = draw(st.sampled_from(["node", "node", "try", "map"]))
+    shape = draw(st.sampled_from(["node", "node", "try", "map", "libop"]))
     s0 = draw(gen.int_script(0, horizon - 1, max_size=9 if big else 6, min_size=2))
     s1 = draw(gen.int_script(0, horizon - 1, max_size=9 if big else 6, min_size=1))
     times0 = [t for t, _ in s0]
@@ -55,7 +55,15 @@ def case(draw, tier):
     pre = draw(st.booleans())
     # a self-scheduling sibling ranked AFTER the thrower inside the wrapped graph (known finding F17: it loses its alarms)
     sibling_timer = shape == "try" and draw(st.integers(0, 3)) == 0
-    return {"pre": pre, "sibling_timer": sibling_timer, "end": horizon, "shape": shape, "s0": s0, "s1": s1, "throw_times": throw_times, "self_sched": self_sched,
+    # (libop) the library's own floordiv_ - a lifted scalar kernel, not a harness node - under error capture: it throws when the
+    # divisor is 0; the divisor's script is 0 at chosen times (1 there in the fault-free twin), optionally read passively
+    libop = None
+    if shape == "libop":
+        sz = draw(gen.int_script(0, horizon - 1, max_size=6, min_size=1))
+        zero_at = sorted(t for t, _ in sz if draw(st.booleans()))
+        libop = {"sz": [[t, [{"k": "set", "v": 0 if t in zero_at else abs(ops[-1]["v"]) + 1}]] for t, ops in sz], "zero_at": zero_at,
+                 "passive": draw(st.integers(0, 2)) == 0, "name": draw(st.sampled_from(["floordiv_", "floordiv_", "mod_"]))}
+    return {"libop": libop, "pre": pre, "sibling_timer": sibling_timer, "end": horizon, "shape": shape, "s0": s0, "s1": s1, "throw_times": throw_times, "self_sched": self_sched,
             "throw_ords": throw_ords, "period": period,
             "second": second, "fn": draw(st.sampled_from(["sum", "acc", "count"])), "keys": keys}
 
@@ -81,7 +89,15 @@ def build(case, faults: bool):
         T["tags"] = ["a"]
     if thr:
         T["throw"] = thr
-    if case["shape"] == "node":
+    if case["shape"] == "libop":
+        lo = case["libop"]
+        sz = [[t, [{"k": "set", "v": (1 if (not faults and ops[-1]["v"] == 0) else ops[-1]["v"])}]] for t, ops in lo["sz"]]
+        stmts += [{"id": "sz", "op": "src", "schema": "TS[int]", "script": sz},
+                  {"id": "T", "op": "op", "name": lo["name"], "args": [{"ts": "s0"}, {"ts": {"r": "sz", "passive": True} if lo["passive"] else "sz"}], "has_out": True},
+                  {"id": "err", "op": "errcap", "of": "T"}, {"id": "r_T", "op": "node", "ins": ["T"]},
+                  {"id": "r_err", "op": "node", "ins": ["err"], "deep": True},
+                  {"id": "down", "op": "node", "ins": ["T", "s1"], "out": "TS[int]", "fn": "sum", "valid": [], "log_inputs": False}]
+    elif case["shape"] == "node":
         stmts += [T, {"id": "err", "op": "errcap", "of": "T"}, {"id": "r_T", "op": "node", "ins": ["T"]},
                   {"id": "r_err", "op": "node", "ins": ["err"], "deep": True},
                   {"id": "down", "op": "node", "ins": ["T", "s1"], "out": "TS[int]", "fn": "sum", "valid": [], "log_inputs": False}]
@@ -171,6 +187,37 @@ def check(case, ctx) -> Result:
         k = next((i for i, (x, y) in enumerate(zip(a, b)) if x != y), min(len(a), len(b)))
         res.violations.append(Viol("independent_stream_disturbed", f"the stream of a node that does not depend on the failing node differs from the fault-free run at tick #{k}: {a[k:k + 2]} vs {b[k:k + 2]}", feats))
     throw_eval_times = [d["t"] for d in tr.user_evals if d["x"].get("throw") and d["label"] in ("T", "G.T")]
+    if case["shape"] == "libop":
+        lo = case["libop"]
+        # when the kernel runs (both inputs valid, an active one ticked) and what its divisor is then, from the scripts
+        s0t = {t: ops[-1]["v"] for t, ops in case["s0"]}
+        szt = {t: ops[-1]["v"] for t, ops in lo["sz"]}
+        cur0 = curz = None
+        throw_eval_times, ok_evals = [], []
+        for t in sorted(set(s0t) | set(szt)):
+            if t in s0t:
+                cur0 = s0t[t]
+            if t in szt:
+                curz = szt[t]
+            if cur0 is None or curz is None or not (t in s0t or (t in szt and not lo["passive"])):
+                continue
+            (throw_eval_times if curz == 0 else ok_evals).append(t)
+        errs = errs_of(tr, "r_err")
+        if [t for t, _ in errs] != throw_eval_times:
+            res.violations.append(Viol("error_ticks_wrong", f"{lo['name']} divided by zero at {throw_eval_times[:12]} but the error output ticked at {[t for t, _ in errs][:12]}", feats))
+        elif any("zero" not in str(m) for _, m in errs):
+            res.violations.append(Viol("error_message_wrong", f"error_msg values {[str(m)[:80] for _, m in errs][:3]} do not carry the kernel's 'division by zero' text", feats))
+        o = [(t, v) for t, v, _ in tr.stream("r_T") if t not in throw_eval_times]
+        o0 = [(t, v) for t, v, _ in tr0.stream("r_T") if t not in throw_eval_times]
+        if o != o0:
+            res.violations.append(Viol("failing_node_output_differs_later", f"outside the throw cycles {lo['name']} wrote {o[:8]}, in the fault-free run {o0[:8]}", feats))
+        elif [t for t, _ in o] != ok_evals:
+            res.violations.append(Viol("failing_node_not_reevaluated", f"{lo['name']} produced results at {[t for t, _ in o][:12]}, its inputs call for {ok_evals[:12]}", feats))
+        ind_times = {t for t, _ in a}
+        res.nontrivial = bool(throw_eval_times) and any(t in ind_times for t in throw_eval_times) and any(t > throw_eval_times[0] for t in ok_evals)
+        res.labels += ["shape_libop", "library_kernel_" + lo["name"]] + (["throws_fired"] if throw_eval_times else []) + (["passive_divisor"] if lo["passive"] else [])
+        res.summary = {"throw_times": throw_eval_times[:12], "shape": "libop"}
+        return res
     if case["shape"] == "node":
         errs = errs_of(tr, "r_err")
         if [t for t, _ in errs] != throw_eval_times:
